@@ -1003,7 +1003,7 @@ func runC18On(c *Ctx, binEnv string, n int, conc []int) {
 func init() {
 	register(&Prop{
 		ID: "C18",
-		Rule: "the real server binary (built from the working tree) runs on a loopback port; well-formed requests to all ten endpoints are generated over every field present/absent, digits/hash spellings incl. unknown ones, raw and structured suites, secrets with surrounding white space, counters/timestamps/periods/skews of the C01-C06 domains, from 1..32 client goroutines over reused and fresh connections; each response is compared with the in-process library result for exactly the request's parameters AND the independent reference model; generated codes are fed back to the matching validate endpoint; " +
+		Rule: "the real server binary (built from the working tree) runs on a loopback port; well-formed requests to all ten endpoints are generated over every field present/absent, digits/hash spellings incl. unknown ones, raw and structured suites, secrets with surrounding white space, counters/timestamps/periods/skews of the C01-C06 domains, from 1..32 client goroutines over reused and fresh connections; each response is compared with the in-process library result for exactly the request's parameters AND the independent reference model; generated codes are fed back to the matching validate endpoint; 2..16 different requests are pipelined on one TCP connection (bytes cut into segments at seeded places) and the i-th answer is judged as the answer to the i-th request; " +
 			"distinct_nontrivial counts distinct (endpoint, body, query) requests judged",
 		Run: func(c *Ctx) {
 			runC18On(c, "VERIF_SERVER_BIN", c.N(6000, 100000), []int{1, 4, 32, 8})
